@@ -1,5 +1,6 @@
 INIT GInit
 NEXT GNext
 CONSTANT Mode = "fixed"
+CONSTANT IntoMode = "faithful"
 CONSTANT Tier = "thorough"
 CHECK_DEADLOCK FALSE
